@@ -306,9 +306,16 @@ def run_fuzz(ctx, runs, seeded, seed):
     if p.returncode != 0 or crashes:
         data = open(crashes[0], "rb").read() if crashes else b""
         text = data.decode("utf-8", "replace")
-        kind = "timeout" if any("timeout" in os.path.basename(c) for c in crashes) else "crash"
+        names = [os.path.basename(c).split("-")[0] for c in crashes]
+        if any(n == "timeout" for n in names):
+            kind = "timeout"
+        elif any(n in ("oom", "leak") for n in names) or "out-of-memory" in err or "LeakSanitizer" in err:
+            kind = "fuzzer-resource"      # the fuzzing PROCESS ran out of memory / the leak checker spoke: not a statement about parse()
+        else:
+            kind = "crash"
         m = re.search(r"panicked at ([^\n]*)\n([^\n]*)", err)
-        fail = (text, kind, (m.group(0)[:300] if m else err[-400:]))
+        diag = " | ".join(l.strip()[:200] for l in err.splitlines() if ("ERROR:" in l or "SUMMARY:" in l or "deadly signal" in l))[:600]
+        fail = (text, kind, (m.group(0)[:300] if m else (diag or err[-400:])) + " artifacts=%s rc=%s" % (names, p.returncode))
     shutil.rmtree(work, ignore_errors=True)
     return fail
 
@@ -322,11 +329,11 @@ def worker(ctx):
             text, kind, msg = bad
             # route through the ordinary oracle so that known findings / replay files work uniformly
             ctx.check("parse", {"srcs": [text]})
-            if kind == "timeout":
+            if kind in ("timeout", "fuzzer-resource"):
                 # the same text parses promptly in nlrun: the fuzzer's per-input wall-clock limit was hit because the
                 # machine is loaded, not because the parser loops (a real non-termination would have hung nlrun -> exit 2)
-                ctx.cls("fuzz:timeout_not_reproduced")
-                ctx.exclude("libFuzzer wall-clock timeout on an input that parses promptly when replayed (campaign leg cut short)")
+                ctx.cls("fuzz:%s_not_reproduced" % kind)
+                ctx.exclude("libFuzzer %s on an input that parses promptly when replayed (campaign leg cut short): %s" % (kind, msg[:300]))
             else:
                 raise GeneratorBug("libFuzzer reported a %s that nlrun's parse does not reproduce: %r (%s)" % (kind, text[:200], msg))
     # (c) depth probe
